@@ -13,8 +13,12 @@ import (
 	"os"
 	"os/exec"
 	"path/filepath"
+	"runtime"
 	"strings"
+	"sync"
+	"syscall"
 	"time"
+	"unsafe"
 
 	"github.com/evanphx/json-patch/v5/zzverif/gen"
 	"github.com/evanphx/json-patch/v5/zzverif/sim"
@@ -49,6 +53,7 @@ const (
 	StDangling = "dangling-link"      // symlink to nothing
 	StProcMem  = "stat-ok-read-fails" // /proc/self/mem: stat succeeds, read returns EIO
 	StLinkOK   = "symlink"            // symlink to a regular file with Content
+	StFifo     = "fifo"               // named pipe fed with Content by the harness (what `-p <(cmd)` gives): readable, not a regular file
 )
 
 type File struct {
@@ -117,7 +122,7 @@ func fold(s *Scen) (e Expected) {
 		}
 		f := s.Files[a.File]
 		switch f.State {
-		case StFile, StLinkOK:
+		case StFile, StLinkOK, StFifo:
 		default:
 			return Expected{Why: fmt.Sprintf("argument %d: file state %s", i, f.State)}
 		}
@@ -154,6 +159,8 @@ func Exec(s *Scen, binDir, dir string) (*Observed, error) {
 		return nil, err
 	}
 	defer os.RemoveAll(dir)
+	var fifos []string
+	var feeders sync.WaitGroup
 	for _, f := range s.Files {
 		p := filepath.Join(dir, f.Name)
 		switch f.State {
@@ -172,9 +179,35 @@ func Exec(s *Scen, binDir, dir string) (*Observed, error) {
 			os.Symlink(p+".real", p)
 		case StProcMem:
 			os.Symlink("/proc/self/mem", p)
+		case StFifo:
+			if err := syscall.Mkfifo(p, 0o644); err != nil {
+				return nil, err
+			}
+			fifos = append(fifos, p)
+			content := f.Content
+			feeders.Add(1)
+			go func() {
+				defer feeders.Done()
+				// blocks until the command opens the pipe for reading (or the harness does, after the command is gone)
+				w, err := os.OpenFile(p, os.O_WRONLY, 0)
+				if err != nil {
+					return
+				}
+				w.Write(content)
+				w.Close()
+			}()
 		case StAbsent:
 		}
 	}
+	defer func() {
+		// release feeders whose pipe was never opened by the command
+		for _, p := range fifos {
+			if r, err := os.OpenFile(p, os.O_RDONLY|syscall.O_NONBLOCK, 0); err == nil {
+				defer r.Close()
+			}
+		}
+		feeders.Wait()
+	}()
 	var argv []string
 	for _, a := range s.Args {
 		name := s.Files[a.File].Name
@@ -198,14 +231,46 @@ func Exec(s *Scen, binDir, dir string) (*Observed, error) {
 	var so, se bytes.Buffer
 	cmd.Stdout = &so
 	cmd.Stderr = &se
-	in, err := cmd.StdinPipe()
+	// The stdin stream is a pipe the harness owns.  Each scripted chunk is written only after
+	// the child has consumed the previous one (FIONREAD on the pipe reads 0), so the child's
+	// read() calls see exactly the scripted boundaries: short reads on stdin are a decision of
+	// the scenario, not of kernel timing, and replay exactly.
+	pr, pw, err := os.Pipe()
 	if err != nil {
 		return nil, err
 	}
+	cmd.Stdin = pr
 	if err := cmd.Start(); err != nil {
+		pr.Close()
+		pw.Close()
 		return nil, err
 	}
+	pr.Close()
+	exited := make(chan struct{})
+	wdone := make(chan struct{})
 	go func() {
+		defer close(wdone)
+		defer pw.Close()
+		fd := pw.Fd()
+		drained := func() bool {
+			// wait until the pipe is empty or the child is gone
+			for i := 0; ; i++ {
+				var n int32
+				if _, _, e := syscall.Syscall(syscall.SYS_IOCTL, fd, 0x541B /* FIONREAD */, uintptr(unsafe.Pointer(&n))); e != 0 || n == 0 {
+					return e == 0
+				}
+				select {
+				case <-exited:
+					return false
+				default:
+				}
+				if i < 200 {
+					runtime.Gosched()
+				} else {
+					time.Sleep(20 * time.Microsecond)
+				}
+			}
+		}
 		data := s.Stdin
 		for _, n := range s.Chunks {
 			if n <= 0 || len(data) == 0 {
@@ -214,17 +279,23 @@ func Exec(s *Scen, binDir, dir string) (*Observed, error) {
 			if n > len(data) {
 				n = len(data)
 			}
-			if _, err := in.Write(data[:n]); err != nil {
-				break
+			if _, err := pw.Write(data[:n]); err != nil {
+				return
 			}
 			data = data[n:]
+			if !drained() {
+				return
+			}
+			// give the reader time to block in its next read() before more bytes arrive
+			// (only matters for readers that poll; a blocking read makes this a no-op)
 		}
 		if len(data) > 0 {
-			in.Write(data)
+			pw.Write(data)
 		}
-		in.Close()
 	}()
 	werr := cmd.Wait()
+	close(exited)
+	<-wdone
 	o := &Observed{Stdout: so.String(), Stderr: se.String()}
 	if ctx.Err() != nil {
 		o.Timeout = true
@@ -283,7 +354,7 @@ func describeArgs(s *Scen) string {
 	for _, a := range s.Args {
 		f := s.Files[a.File]
 		d := f.State
-		if f.State == StFile || f.State == StLinkOK {
+		if f.State == StFile || f.State == StLinkOK || f.State == StFifo {
 			d += ":" + f.Note
 		}
 		parts = append(parts, fmt.Sprintf("%s[%s]", f.Name, d))
@@ -352,6 +423,22 @@ func Enumerate() []*Scen {
 				}
 			}
 		}
+		// a valid patch delivered through a named pipe at every position (readable, but not a regular file)
+		for n := 1; n <= 3; n++ {
+			for pos := 0; pos < n; pos++ {
+				s := &Scen{Target: target, Stdin: sim.Bytes(chainDoc), Note: fmt.Sprintf("enumeration: named pipe at position %d of %d", pos, n)}
+				for i := 0; i < n; i++ {
+					st := StFile
+					if i == pos {
+						st = StFifo
+					}
+					s.Files = append(s.Files, File{Name: fmt.Sprintf("p%d.json", i), State: st, Content: sim.Bytes(chainPatch(i)), Note: "valid"})
+					s.Args = append(s.Args, Arg{File: i, Spelling: i % 4})
+				}
+				out = append(out, s)
+			}
+		}
+		out = append(out, &Scen{Target: target, Stdin: sim.Bytes(chainDoc), Note: "enumeration: malformed patch through a named pipe", Files: []File{{Name: "p.json", State: StFifo, Content: sim.Bytes(`[{"op":`), Note: "torn"}}, Args: []Arg{{File: 0}}})
 		// every permutation of three order-sensitive patches (chain: only one order applies; overwrite: all apply, result differs)
 		perms := [][]int{{0, 1, 2}, {0, 2, 1}, {1, 0, 2}, {1, 2, 0}, {2, 0, 1}, {2, 1, 0}}
 		for _, kind := range []string{"chain", "overwrite"} {
@@ -375,6 +462,15 @@ func Enumerate() []*Scen {
 		out = append(out, &Scen{Target: target, Stdin: sim.Bytes(chainDoc), Note: "enumeration: same file twice", Files: []File{{Name: "p.json", State: StFile, Content: sim.Bytes(overwritePatch(1)), Note: "valid"}}, Args: []Arg{{File: 0}, {File: 0, Spelling: 3}}})
 		out = append(out, &Scen{Target: target, Stdin: sim.Bytes(chainDoc), Note: "enumeration: same chain file twice (second application fails)", Files: []File{{Name: "p.json", State: StFile, Content: sim.Bytes(chainPatch(0)), Note: "valid"}}, Args: []Arg{{File: 0}, {File: 0}}})
 		out = append(out, &Scen{Target: target, Stdin: sim.Bytes(chainDoc), Note: "enumeration: symlink to a valid file", Files: []File{{Name: "p.json", State: StLinkOK, Content: sim.Bytes(chainPatch(0)), Note: "valid"}}, Args: []Arg{{File: 0, Spelling: 1}}})
+		// stdin arriving in pieces: two writes, byte by byte, a trailing newline as its own write
+		for ci, chunks := range [][]int{{10}, {1, 1, 1, 1, 1, 1, 1, 1, 1, 1, 1, 1, 1, 1, 1, 1, 1, 1, 1, 1, 1, 1, 1, 1, 1, 1, 1, 1, 1}, {len(chainDoc)}, {len(chainDoc) - 1}} {
+			in := chainDoc
+			if ci == 2 {
+				in += "\n"
+			}
+			out = append(out, &Scen{Target: target, Stdin: sim.Bytes(in), Chunks: chunks, Note: "enumeration: stdin in several writes", Files: []File{{Name: "p.json", State: StFile, Content: sim.Bytes(chainPatch(0)), Note: "valid"}}, Args: []Arg{{File: 0}}})
+			out = append(out, &Scen{Target: target, Stdin: sim.Bytes(in), Chunks: chunks, Note: "enumeration: stdin in several writes, no patches"})
+		}
 		for _, in := range []string{"", " ", "null", "[]", "{", chainDoc[:10], "7", `"s"`} {
 			out = append(out, &Scen{Target: target, Stdin: sim.Bytes(in), Note: "enumeration: stdin variant", Files: []File{{Name: "p.json", State: StFile, Content: sim.Bytes(`[{"op":"add","path":"/a","value":1}]`), Note: "valid"}}, Args: []Arg{{File: 0}}})
 			out = append(out, &Scen{Target: target, Stdin: sim.Bytes(in), Note: "enumeration: stdin variant, no patches"})
@@ -460,6 +556,8 @@ func Gen(seed uint64) *Scen {
 			f = File{Name: name, State: StFile, Content: sim.Bytes(c), Note: "generated"}
 			if r.P(100) {
 				f.State = StLinkOK
+			} else if r.P(80) {
+				f.State = StFifo
 			}
 		case x < 70:
 			f = faultFile(name, r.Intn(numFaultKinds), chainPatch(step))
@@ -483,7 +581,10 @@ func Gen(seed uint64) *Scen {
 		s.Args[i], s.Args[j] = s.Args[j], s.Args[i]
 	}
 	if len(s.Args) > 0 && r.P(120) {
-		s.Args = append(s.Args, s.Args[r.Intn(len(s.Args))])
+		// (a named pipe can be read once: never give it twice)
+		if a := s.Args[r.Intn(len(s.Args))]; s.Files[a.File].State != StFifo {
+			s.Args = append(s.Args, a)
+		}
 	}
 	return s
 }
@@ -624,7 +725,7 @@ func RunWorker(p sim.Params) *sim.Summary {
 		for _, a := range s.Args {
 			f := s.Files[a.File]
 			k := "patch_file_" + f.State
-			if f.State == StFile || f.State == StLinkOK {
+			if f.State == StFile || f.State == StLinkOK || f.State == StFifo {
 				k += ":" + f.Note
 			}
 			sum.Faults[k]++
@@ -701,7 +802,7 @@ func RunWorker(p sim.Params) *sim.Summary {
 		sum.Enum["fault_and_order_enumeration"]++
 	}
 	if done {
-		sum.Exhaustive = []string{fmt.Sprintf("every fault kind (%d) x every position in -p lists of length 1..3 with all other patches valid, every permutation of three chained and of three overwriting patches, no/duplicate/symlinked arguments, 8 stdin variants - for both binaries (%d executions)", numFaultKinds, len(enum))}
+		sum.Exhaustive = []string{fmt.Sprintf("every fault kind (%d) x every position in -p lists of length 1..3 with all other patches valid, every permutation of three chained and of three overwriting patches, no/duplicate/symlinked arguments, 8 stdin variants, stdin delivered in 1/2/n writes, a named pipe as patch file at every position - for both binaries (%d executions)", numFaultKinds, len(enum))}
 	}
 	// 2. seeded random scenarios
 	for i := int64(0); i < p.MaxRuns && time.Now().Before(p.Deadline); i++ {
